@@ -101,10 +101,29 @@ func expectedKeys(c *tcase, v int) []string {
 func Spell(prog []item) string { return SpellV(prog, -1) }
 
 // SpellV writes the program as JavaScript; v >= 0 selects the spelling of block k as blockSpellings[(v+k) % n].
-func SpellV(prog []item, v int) string {
+func SpellV(prog []item, v int) string { return spellPad(prog, v, 0) }
+
+// padNames: the pad further names q0 ... q(pad-1)
+func padNames(pad int) []string {
+	out := make([]string, pad)
+	for i := range out {
+		out[i] = fmt.Sprintf("q%d", i)
+	}
+	return out
+}
+
+// spellPad writes the program like SpellV; with pad > 0 the program is preceded by `let q0,...;` and the FIRST parameter
+// default `n=d` is written `n=[d,q0,...]`: pad unrelated names more are used in that default (nothing else changes, so the
+// binding of every other occurrence is what ScopeSem.tla computed: the bookkeeping of the parser counts uses and declarations
+// per scope in narrow fields, and the interesting counts are those around their widths).
+func spellPad(prog []item, v int, pad int) string {
 	var b strings.Builder
 	var closers []string
 	nblk := 0
+	padded := pad == 0
+	if pad > 0 {
+		b.WriteString("let " + strings.Join(padNames(pad), ",") + ";")
+	}
 	for ii, it := range prog {
 		switch it.K {
 		case "decl":
@@ -134,6 +153,9 @@ func SpellV(prog []item, v int) string {
 					// the default as a plain name, or (same scoping) parameter and default wrapped in an array / object pattern
 					// and literal: `[n]=[d]`, `{0:n}={0:d}`
 					switch {
+					case !padded:
+						padded = true
+						ps = append(ps, p.N+"=["+p.D+","+strings.Join(padNames(pad), ",")+"]")
 					case v >= 0 && (v+q+nblk)%4 == 1:
 						ps = append(ps, "["+p.N+"]=["+p.D+"]")
 					case v >= 0 && (v+q+nblk)%4 == 3:
@@ -470,7 +492,36 @@ var names = []string{"a", "b", "c", "d"}
 
 // runCase executes one generated program; returns whether the observation differs from the expectation (cheap pre-check;
 // the verdict is the trace specification's).
-func runCase(w *tr.Writer, c *tcase, src string, opts js.Options, v int) bool {
+// firstDefaultOcc: index (among the identifier occurrences) of the first parameter default of the program, or -1
+func firstDefaultOcc(c *tcase) int {
+	n := 0
+	for _, it := range c.Prog {
+		switch it.K {
+		case "decl", "use":
+			n++
+		case "grp":
+			n += 2
+		case "open":
+			if it.N != "" {
+				n++
+			}
+			if it.S == "fn" || it.S == "fx" || it.S == "ar" {
+				for _, p := range it.Ps {
+					n++
+					if p.D != "" {
+						return n
+					}
+				}
+			}
+			if it.C != "" {
+				n++
+			}
+		}
+	}
+	return -1
+}
+
+func runCase(w *tr.Writer, c *tcase, src string, opts js.Options, v int, pad int) bool {
 	xkeys := expectedKeys(c, v)
 	// expectation: canonical labels of the bindings in source order
 	exp := []int{}
@@ -500,6 +551,25 @@ func runCase(w *tr.Writer, c *tcase, src string, opts js.Options, v int) bool {
 	onames := []string{}
 	for _, o := range c.Occ {
 		onames = append(onames, o.N)
+	}
+	if pad > 0 {
+		// the padded spelling: pad declarations in front, pad uses behind the first default
+		d := firstDefaultOcc(c)
+		top := 0
+		for _, x := range exp {
+			if x > top {
+				top = x
+			}
+		}
+		extra := make([]int, pad)
+		for i := range extra {
+			extra[i] = top + 1 + i
+		}
+		padded := append([]int{}, extra...)
+		padded = append(padded, exp[:d+1]...)
+		padded = append(padded, extra...)
+		padded = append(padded, exp[d+1:]...)
+		exp, kinds, onames = padded, []string{}, []string{}
 	}
 	w.Ev("Open", tr.E{"src": tr.Ints([]byte(src)), "verdict": c.Verdict, "exp": exp, "kinds": kinds, "names": onames, "ctx": occContexts(c.Prog)})
 	differs := false
@@ -641,7 +711,7 @@ func Replay(args []string) {
 		tid++
 		w.Begin(tid)
 		// the scoping of the tree does not depend on Options: every other program is parsed with WhileToFor
-		d := runCase(w, &c, src, js.Options{WhileToFor: (line/len(blockSpellings))%2 == 1}, line)
+		d := runCase(w, &c, src, js.Options{WhileToFor: (line/len(blockSpellings))%2 == 1}, line, 0)
 		if d {
 			sum.Mismatches++
 		}
@@ -664,6 +734,19 @@ func Replay(args []string) {
 			sum.Samples = append(sum.Samples, map[string]interface{}{"src": src, "verdict": c.Verdict, "occ": c.Occ})
 		}
 		w.End(d || tid%*sample == 0)
+		// counts around the width of the parser's per-scope marks: every 61st accepted program with a parameter default is run
+		// once more with 254 ... 257 further names used in that default
+		if c.Verdict == "accepted" && !d && line%61 == 0 && firstDefaultOcc(&c) >= 0 { // (only programs that agree unpadded)
+			pad := []int{254, 255, 256, 257}[(line/61)%4]
+			tid++
+			sum.Executions++
+			w.Begin(tid)
+			dp := runCase(w, &c, spellPad(c.Prog, line, pad), js.Options{}, line, pad)
+			if dp {
+				sum.Mismatches++
+			}
+			w.End(dp || tid%*sample == 0)
+		}
 	})
 	if err != nil {
 		fmt.Fprintln(os.Stderr, err)
